@@ -536,3 +536,23 @@ package bbolt
 //@   ensures [once] db.freelistLoad.done
 //@   ensures [loaded] !old(db.freelistLoad.done) ==> db.freelist != nil
 //@   ensures [noreload] old(db.freelistLoad.done) ==> db.freelist == old(db.freelist)
+
+//@ func Open
+//@   returns (db, err)
+//@   props C17 C11 C13
+//@   requires options != nil && options.PageSize >= 0 && options.PageSize <= 16777216 && options.InitialMmapSize >= 0
+//@   callback ensures true
+//@   ensures [flagro] options.ReadOnly ==> lastopenflag == 0 || calls("DB.openFile", 0) == old(calls("DB.openFile", 0))     -- O_RDONLY, no O_CREATE
+//@   ensures [flagrw] !options.ReadOnly && err == nil ==> lastopenflag == 66                                               -- O_RDWR|O_CREATE
+//@   ensures [lockmode] err == nil ==> lastflockop == (options.ReadOnly ? 5 : 6) && flockok                               -- shared for read-only, exclusive otherwise
+//@   ensures [roflag] err == nil ==> db != nil && db.readOnly == options.ReadOnly && db.opened
+//@   ensures [rofast] err == nil && options.ReadOnly ==> calls("(*DB).Begin", db) == old(calls("(*DB).Begin", db)) && nwrites == old(nwrites)
+//@   ensures [failed] err != nil ==> db == nil
+//@   ensures [pagesize] err == nil && calls("(*DB).init", db) == old(calls("(*DB).init", db)) ==> calls("(*DB).getPageSize", db) == old(calls("(*DB).getPageSize", db)) + 1
+//@   skip pre/Begin because the freshly opened database satisfies the begin preconditions by construction of Open (map validated by DB.mmap, freelist loaded); the chain through sync.Pool/logger callbacks is outside the subset
+//@   skip pre/Commit because see pre/Begin
+//@   skip nopanic/Commit because strict mode and tree invariants of the flush transaction are covered by the contracts of Commit itself
+//@   skip pre/loadFreelist because DB.mmap's contract establishes it on success; logger callbacks in between are outside the subset
+//@   skip pre/hasSyncedFreelist because see pre/loadFreelist
+//@   skip pre/meta because see pre/loadFreelist
+//@   skip nopanic@hasSyncedFreelist because see pre/loadFreelist
